@@ -149,6 +149,7 @@ impl BlockWriter {
         }
 
         let mut offset: usize = 0;
+        let mut stalled = false;
         loop {
             #[cfg(feature = "verif")]
             crate::verif::step("BlockWriter::decode_write_pkt");
@@ -158,16 +159,24 @@ impl BlockWriter {
             if offset == pkt.len() {
                 break;
             }
+            if size == 0 {
+                if stalled {
+                    // The buffer is still full after the decoder had a chance to read it:
+                    // the end of the compressed stream is reached, nothing will consume the data
+                    return Err(FluteError::new(
+                        "Data after the end of the compressed stream",
+                    ));
+                }
+                stalled = true;
+            } else {
+                stalled = false;
+            }
         }
         Ok(())
     }
 
     fn decoder_read(&mut self, writer: &dyn ObjectWriter, now: SystemTime) -> Result<()> {
         let decoder = self.decoder.as_mut().unwrap();
-
-        if self.content_length_left == Some(0) {
-            return Ok(());
-        }
 
         loop {
             #[cfg(feature = "verif")]
@@ -182,6 +191,12 @@ impl BlockWriter {
                 return Ok(());
             }
 
+            if self.content_length_left == Some(0) {
+                // The whole content is written: keep reading the decoder, so that it
+                // consumes the end of the compressed stream, but do not write anymore
+                continue;
+            }
+
             if let Some(ctx) = self.md5_context.as_mut() {
                 ctx.consume(&self.buffer[..size])
             }
@@ -190,9 +205,6 @@ impl BlockWriter {
 
             if let Some(content_length_left) = self.content_length_left.as_mut() {
                 *content_length_left = content_length_left.saturating_sub(size);
-                if *content_length_left == 0 {
-                    return Ok(());
-                }
             }
         }
     }
